@@ -85,6 +85,17 @@ def run(run, P):
             if p.get('prec') == 'coap_queue_t':
                 qvars.add('v%d' % p['id'])
 
+        newnode_vars = set()
+        for b, ev in P.events(f):
+            t = ev['e']
+            if t.get('k') == 'asg' and t.get('op') == '=' and isinstance(strip(t['r']), dict) and strip(t['r']).get('fn') == 'coap_new_node' and ap(t['l']):
+                newnode_vars.add(ap(t['l']))
+            elif t.get('k') == 'decl':
+                for d in t['d']:
+                    r0 = strip(d.get('init'))
+                    if isinstance(r0, dict) and r0.get('k') == 'call' and r0.get('fn') == 'coap_new_node':
+                        newnode_vars.add('v%d' % d['id'])
+
         def is_rule_event(ev):
             return id(ev) in wids
         keys, R = relevance(f, is_rule_event, qvars)
@@ -125,7 +136,9 @@ def run(run, P):
                 rv = root_var(l)
                 in_hand = rv is not None and rv.get('prec') == 'coap_queue_t'
                 known = [a for a in qvars if env.nullf(a) == 'N']
-                ok = in_hand or bool(known)
+                # ... or the node that was to carry the count could not be allocated (un-counting after a failed coap_new_node())
+                failed_new = [a for a in newnode_vars if env.nullf(a) == 'Z']
+                ok = in_hand or bool(known) or bool(failed_new)
                 run.oblige('R-CNT-CON', ok, '%s:dec-with-node:%d' % (name, ordn[id(ev)]))
                 if not ok:
                     run.violation('R-CNT-CON', name, ev['loc'], 'decrement-without-node:%d' % ordn[id(ev)],
@@ -332,3 +345,103 @@ def v_name(f, v):
                     if 'v%d' % d['id'] == v:
                         return d.get('n', v)
     return v
+
+
+# ---------------------------------------------------------------------------------------------------------------
+COUNTING_CALL = 'coap_send_pdu'
+WAIT = 'coap_wait_ack'
+
+
+def run_counted_queued(run, P):
+    """(f) counted implies queued.  coap_send_pdu() counts an unreliable Confirmable it transmitted (con_active++).  In a function
+    that calls it and then means to queue the message for retransmission (coap_wait_ack), every return that is reached with the
+    message known Confirmable-and-unreliable (the arm that did NOT return early for `type != CON || reliable`) either passed
+    coap_wait_ack() or lowered con_active again -- otherwise (node allocation failure) the message is counted for ever although
+    nothing will ever acknowledge it."""
+    run.rule('R-CNT-CON')
+    n = 0
+    for f in sorted(P.lib_funcs(), key=lambda f: f['name']):
+        evs = [ev for b, ev in P.events(f)]
+        if not any(e['e'].get('k') == 'call' and e['e'].get('fn') == COUNTING_CALL for e in evs) or \
+           not any(e['e'].get('k') == 'call' and e['e'].get('fn') == WAIT for e in evs):
+            continue
+        name = f['name']
+        n += 1
+        run.instance('R-CNT-CON', '%s: counted by %s() then queued by %s()' % (name, COUNTING_CALL, WAIT))
+        CON = P.const_named('COAP_MESSAGE_CON')
+
+        def is_rule_event(ev):
+            t = ev['e']
+            if t.get('k') == 'call' and t.get('fn') in (COUNTING_CALL, WAIT):
+                return True
+            if t.get('k') == 'ret':
+                return True
+            return _write(t)[0] is not None
+        keys, R = relevance(f, is_rule_event)
+        for b in f['blocks']:
+            c = (b.get('term') or {}).get('cond')
+            if c is not None and any(isinstance(x, dict) and x.get('k') == 'mem' and x.get('f') == 'type' for x in walk(c)):
+                keys = set(keys) | {b['id']}
+
+        def on_event(ev, env, ctx):
+            t = ev['e']
+            if t.get('k') == 'call' and t.get('fn') == COUNTING_CALL:
+                e = apply_generic(ev, env, R).copy()
+                e.ts['sent'] = 1
+                e.ts.pop('q', None)
+                e.ts.pop('dec', None)
+                return [e]
+            if t.get('k') == 'call' and t.get('fn') == WAIT:
+                e = apply_generic(ev, env, R).copy()
+                e.ts['q'] = 1
+                return [e]
+            w, _l = _write(t)
+            if w == '--':
+                e = apply_generic(ev, env, R).copy()
+                e.ts['dec'] = 1
+                return [e]
+            if t.get('k') == 'ret':
+                if env.ts.get('sent') and env.ts.get('con') == 'con-unreliable':
+                    ok = bool(env.ts.get('q') or env.ts.get('dec'))
+                    run.oblige('R-CNT-CON', ok, '%s:counted-queued' % name)
+                    if not ok:
+                        run.violation('R-CNT-CON', name, ev['loc'], 'counted-not-queued',
+                                      'this return is reached after %s() counted an unreliable Confirmable, without %s() and without lowering con_active: the message is '
+                                      'counted against NSTART for ever although no queue node exists that an ACK, RST or give-up could retire' % (COUNTING_CALL, WAIT), ctx.path())
+            return None
+
+        def on_branch(b, s, env, ctx):
+            # the early return `if (pdu->type != CON || RELIABLE(proto)) { delete; return }`: its fall-through arm knows CON and unreliable
+            term = b.get('term') or {}
+            c = strip(term.get('cond'))
+            if not env.ts.get('sent') or not isinstance(c, dict):
+                return env
+            truth = s == b['succ'][0]
+            if c.get('k') == 'mem' and c.get('f') == FIELD and not truth:
+                e = env.copy()
+                e.ts['dec'] = 1        # the count is known to be 0: nothing is counted
+                return e
+            if c.get('k') == 'bin' and c.get('op') in ('!=', '==') and const_int(c['r']) == CON:
+                l = strip(c['l'])
+                if isinstance(l, dict) and l.get('k') == 'mem' and l.get('f') == 'type':
+                    iscon = truth if c['op'] == '==' else not truth
+                    e = env.copy()
+                    e.ts['con'] = 'con' if iscon else 'notcon'
+                    return e
+            # COAP_PROTO_RELIABLE(proto): proto == TCP || TLS || WS || WSS ; after `type == CON` known, every false arm keeps 'con', the
+            # block that finally falls through all of them is the unreliable one.  We approximate: once 'con' is known and a later
+            # comparison of ->proto with a constant comes out false for every reliable protocol the state becomes con-unreliable.
+            if env.ts.get('con') in ('con', 'con-unreliable') and c.get('k') == 'bin' and c.get('op') == '==' and isinstance(strip(c['l']), dict) and strip(c['l']).get('f') == 'proto':
+                e = env.copy()
+                if truth:
+                    e.ts['con'] = 'con-reliable'
+                else:
+                    seen = set(env.ts.get('np', ())) | {const_int(c['r'])}
+                    e.ts['np'] = tuple(sorted(x for x in seen if x is not None))
+                    if len(e.ts['np']) >= 4:
+                        e.ts['con'] = 'con-unreliable'
+                return e
+            return env
+        ctx = solve(f, Env({}), on_event, None, keys, R, key_fn=lambda e: (e.ts.get('sent'), e.ts.get('con'), e.ts.get('np'), e.ts.get('q'), e.ts.get('dec')), on_branch=on_branch, max_envs=512)
+        run.stats['cnt_counted_queued_steps'] += ctx.steps
+    run.require(n >= 1 or run.fixture_mode, 'R-CNT-CON(f): no function both counts through coap_send_pdu() and queues through coap_wait_ack()')
